@@ -35,7 +35,8 @@ GRAD = ('<svg xmlns="http://www.w3.org/2000/svg" viewBox="0 0 100 100"><defs><li
 
 
 def one_case(args):
-    kind, fmt, pos, nvalid, with_defect = args
+    kind, fmt, pos, nvalid, with_defect = args[:5]
+    after_good = len(args) > 5 and args[5]     # the defect arrives in a build directory that already holds a good build of the other sources
     d = common.scratch_dir("c17")
     try:
         valid = {f"emoji_u{0x1F600 + i:x}.svg": cli.simple_svg(i) for i in range(nvalid)}
@@ -103,11 +104,26 @@ def one_case(args):
             rc, out = cli.nanoemoji(["--build_dir", d / "build", d / "vf.toml"], d)
             outfile = d / "build" / "V.ttf"
         else:
+            stale = None
+            if after_good:
+                good_args = ["--bitmap_resolution", "64"] if kind == "oversize-bitmap" else extra_args
+                rc0, out0 = cli.nanoemoji(["--color_format", fmt, "--build_dir", d / "build", *good_args, *names], d)
+                fonts0 = sorted((d / "build").glob("*.ttf")) + sorted((d / "build").glob("*.otf"))
+                if rc0 != 0 or not fonts0:
+                    return {"kind": kind, "fmt": fmt, "pos": pos, "nvalid": nvalid, "with_defect": with_defect, "rc": rc0, "font_written": False, "tail": out0[-400:],
+                            "after_good": True, "good_failed": True}
+                stale = {p_: p_.read_bytes() for p_ in fonts0}
             rc, out = cli.nanoemoji(["--color_format", fmt, "--build_dir", d / "build", *extra_args, *ordered], d)
             outfile = d / "build" / "Font.ttf"
             if fmt.startswith("cff"):
                 outfile = d / "build" / "Font.otf"
                 # default output_file is .ttf; cff formats need an .otf name
+            if stale is not None:
+                # a font left over from the good build is not "freshly written"; one whose bytes changed is
+                fonts1 = sorted((d / "build").glob("*.ttf")) + sorted((d / "build").glob("*.otf"))
+                fresh = any(p_ not in stale or p_.read_bytes() != stale[p_] for p_ in fonts1)
+                return {"kind": kind, "fmt": fmt, "pos": pos, "nvalid": nvalid, "with_defect": with_defect, "rc": rc, "font_written": fresh, "tail": out[-400:],
+                        "after_good": True}
         return {"kind": kind, "fmt": fmt, "pos": pos, "nvalid": nvalid, "with_defect": with_defect, "rc": rc, "font_written": any((d / "build").glob("*.ttf")) or any((d / "build").glob("*.otf")),
                 "tail": out[-400:]}
     finally:
@@ -253,16 +269,22 @@ def suite(ctx, res, rounds):
             jobs.append((kind, fmt, pos, nvalid, True))
             if r == 0:
                 jobs.append((kind, fmt, pos, nvalid, False))  # positive control
+                if not kind.startswith("masters"):
+                    # the same defect arriving in a build directory that already holds a good build: the exit status must still say so
+                    jobs.append((kind, fmt, pos, nvalid, True, True))
     with ThreadPoolExecutor(max_workers=8) as ex:
         results = list(ex.map(one_case, jobs))
     for j, r in zip(jobs, results):
         res.count(key=("cli", j), nontrivial=True)
         res.stat(("defect:" if r["with_defect"] else "control:") + r["kind"])
         w = {k: r[k] for k in ("kind", "fmt", "pos", "nvalid", "rc", "font_written", "tail")}
-        if r["with_defect"]:
+        if r.get("good_failed"):
+            res.add_tie_break("the good build that precedes the defect must succeed", w, "rc=0", f"rc={r['rc']}")
+        elif r["with_defect"]:
             if r["rc"] == 0 or r["font_written"]:
-                res.add_cex(f"defective input ({r['kind']}) did not stop the build: exit {r['rc']}, font written: {r['font_written']}", w,
-                            {"site": "c17-accepted", "kind": r["kind"], "fmt": r["fmt"]})
+                res.add_cex(f"defective input ({r['kind']}{', added to a build directory holding a good build' if r.get('after_good') else ''}) did not stop "
+                            f"the build: exit {r['rc']}, font freshly written: {r['font_written']}", w,
+                            {"site": "c17-accepted" + ("-after-good" if r.get("after_good") else ""), "kind": r["kind"], "fmt": r["fmt"]})
         else:
             if r["rc"] != 0:
                 res.infra_errors.append(f"control for {r['kind']} failed: {r['tail'][-200:]}")
